@@ -16,6 +16,7 @@ import (
 	"runtime/debug"
 	"runtime/metrics"
 	"sort"
+	"strings"
 	"sync"
 
 	vmcommon "github.com/ElrondNetwork/elrond-vm-common"
@@ -213,6 +214,9 @@ type ShardConfig struct {
 	DNS              []HB                         `json:"dns"`
 	EnableNameChange bool                         `json:"enable_name_change"`
 	ActivationEpoch  uint32                       `json:"activation_epoch"`
+	// StartEpoch is the epoch the chain is in when the factory is built (a node restarted later than epoch 0, or a
+	// second container of a running node): the notifier announces it to every function at registration
+	StartEpoch uint32 `json:"start_epoch,omitempty"`
 }
 
 type Shard struct {
@@ -408,9 +412,21 @@ func (s *Shard) nodeSave(c *Call, snd, dst vmcommon.UserAccountHandler) {
 		s.store(a)
 	}
 }
+
+// GetExistingAccount fails for an address without an account record, as a node's accounts database does (LoadAccount
+// hands out a blank account instead).
 func (s *Shard) GetExistingAccount(addr []byte) (vmcommon.AccountHandler, error) {
+	s.mu.Lock()
+	_, ok := s.Accounts[string(addr)]
+	s.mu.Unlock()
+	if !ok {
+		return nil, errAccountNotFound
+	}
 	return s.LoadAccount(addr)
 }
+
+var errAccountNotFound = errors.New("account was not found")
+
 func (s *Shard) SaveAccount(h vmcommon.AccountHandler) error {
 	if err := s.dep("save-account"); err != nil {
 		return err
@@ -445,6 +461,7 @@ func copyGas(g map[string]map[string]uint64) map[string]map[string]uint64 {
 func NewShard(cfg ShardConfig) (*Shard, error) {
 	s := &Shard{Cfg: cfg, Accounts: map[string]*Account{}, Payable: map[string]int{}, notifier: &notifier{}, depCount: map[string]int{}, tracking: true}
 	s.Marsh = &shardMarshalizer{sh: s}
+	s.notifier.epoch = cfg.StartEpoch
 	dns := map[string]struct{}{}
 	for _, d := range cfg.DNS {
 		dns[string(d)] = struct{}{}
@@ -907,7 +924,25 @@ func DistinctGas(scale uint64) map[string]map[string]uint64 {
 }
 
 // GasValid mirrors the documented acceptance rule: every one of the 22 entries present and non-zero.
+// normGas spells every key of a schedule the canonical way (keys are matched case-insensitively, as the factory's
+// decoder does); keys that name nothing are dropped.
+func normGas(g map[string]map[string]uint64) map[string]map[string]uint64 {
+	out := map[string]map[string]uint64{}
+	for sect, names := range map[string][]string{refBaseOperationCostSection: baseCostNames, refBuiltInCostSection: builtInCostNames} {
+		out[sect] = map[string]uint64{}
+		for k, v := range g[sect] {
+			for _, n := range names {
+				if strings.EqualFold(k, n) {
+					out[sect][n] = v
+				}
+			}
+		}
+	}
+	return out
+}
+
 func GasValid(g map[string]map[string]uint64) bool {
+	g = normGas(g)
 	for _, n := range baseCostNames {
 		if g[refBaseOperationCostSection][n] == 0 {
 			return false
